@@ -232,3 +232,20 @@ fn test_offsetnz() {
         assert_eq!(offsetnz(x), i);
     }
 }
+
+#[cfg(httparse_verif)]
+#[allow(missing_docs)]
+pub fn _verif_swar_kernel(class: u8, block: [u8; 8]) -> Option<usize> {
+    use core::convert::TryFrom;
+    let block = ByteBlock::try_from(&block[..BLOCK_SIZE]).ok()?;
+    match class {
+        0 => Some(match_uri_char_8_swar(block)),
+        1 => Some(match_header_value_char_8_swar(block)),
+        2 => Some(match_block(is_header_name_token, block)),
+        _ => None,
+    }
+}
+
+#[cfg(httparse_verif)]
+#[allow(missing_docs)]
+pub const _VERIF_SWAR_BLOCK_SIZE: usize = BLOCK_SIZE;
